@@ -5,6 +5,7 @@ import MesaModel.Proofs.LegacyNet
 import MesaModel.Proofs.LegacyDist
 import MesaModel.Proofs.LegacyNetState
 import MesaModel.Proofs.LegacyIndex
+import MesaModel.Proofs.LegacyHexTorus
 /-!
 # C09 — legacy neighbourhood queries return exactly the cells/agents in range
 
@@ -53,6 +54,16 @@ theorem C09_fast_eq_slow (d : Dim) (pos : Coord) (moore : Bool) (r : Nat) (hint 
 theorem C09_cache_transparent (d : Dim) (qs : List NKey) : askAll d [] qs = qs.map (nbhdCompute d) :=
   askAll_transparent d qs
 
+/-- **the cache key the code uses is the whole argument tuple** (the parameter list and the key tuple are regenerated from
+    mesa/space.py on every run, like the hex tables): every argument of `get_neighborhood` is part of the key under which its
+    result is stored, for both classes, and the arguments are the fields of the model's `NKey` / `HKey` — so the model's cache
+    (keyed by the whole `NKey`) is the code's; a key that forgets an argument, or a new argument, breaks this obligation -/
+theorem C09_cache_key_is_every_argument :
+    (∀ x ∈ Gen.nbhdParams, x ∈ Gen.nbhdCacheKey) ∧ (∀ x ∈ Gen.nbhdCacheKey, x ∈ Gen.nbhdParams) ∧
+    (∀ x ∈ Gen.hexParams, x ∈ Gen.hexCacheKey) ∧ (∀ x ∈ Gen.hexCacheKey, x ∈ Gen.hexParams) ∧
+    Gen.nbhdParams = ["pos", "moore", "include_center", "radius"] ∧ Gen.hexParams = ["pos", "include_center", "radius"] := by
+  decide
+
 theorem C09_hex_cache_transparent (d : Dim) (qs : List HKey) :
     askAllHex d [] qs = qs.map (fun k => hexCompute d k.pos k.ic k.r) :=
   askAllHex_transparent d qs
@@ -63,6 +74,24 @@ theorem C09_hex_spec (d : Dim) (pos : Coord) (ic : Bool) (r : Nat) :
     SortedSet (hexCompute d pos ic r) ∧
     ∀ c, c ∈ hexCompute d pos ic r ↔ (c = pos → ic = true) ∧ (c ≠ pos → Reach (hexNbrs d) r pos c) :=
   hex_spec d pos ic r
+
+/-- **touching is symmetric on the grids of the quantifier** — bounded hex grids of any size and hex tori of *even* width — so
+    "within r steps of touching hexagons" (`Reach (hexNbrs d)` in `C09_hex_spec`) is a distance there.  This is where the even
+    width enters: on a torus of odd width the wrapped tables are not symmetric (witness below), which is why such grids are
+    outside the property's quantifier (they are modelled and tied, but no oracle judges them) -/
+theorem C09_hex_touching_symmetric (d : Dim) (hq : d.torus = false ∨ d.w % 2 = 0) (c n : Coord) (hc : d.inGrid c)
+    (hn : d.inGrid n) : n ∈ hexNbrs d c ↔ c ∈ hexNbrs d n := by
+  cases ht : d.torus with
+  | false => exact hexNbrs_symm_bounded d ht c n hc hn
+  | true =>
+    rcases hq with hq | hq
+    · rw [ht] at hq; cases hq
+    · exact hexNbrs_symm_even_torus d ht hq c n hc hn
+
+/-- a 3x3 hex torus: (2, 1) is listed as touching (0, 0), but (0, 0) is not listed as touching (2, 1) -/
+example : ((2, 1) : Coord) ∈ hexNbrs ⟨3, 3, true⟩ (0, 0) ∧ ((0, 0) : Coord) ∉ hexNbrs ⟨3, 3, true⟩ (2, 1) := by decide
+/-- a 4x3 hex torus: (3, 1) touches (0, 0) across the seam, and back -/
+example : ((3, 1) : Coord) ∈ hexNbrs ⟨4, 3, true⟩ (0, 0) ∧ ((0, 0) : Coord) ∈ hexNbrs ⟨4, 3, true⟩ (3, 1) := by decide
 
 theorem C09_hex_cells_in_grid (d : Dim) (hw : 0 < d.w) (hh : 0 < d.h) (pos : Coord) (hpos : d.inGrid pos) (ic : Bool) (r : Nat) :
     ∀ c ∈ hexCompute d pos ic r, d.inGrid c :=
